@@ -2,7 +2,7 @@
    ExtrOcamlBasic only (bool, option, unit, list, prod, sumbool, sumor map to
    OCaml's own types); nat, positive, N, Z stay the Coq datatypes. *)
 From GoArt Require Import Base.Bytes Model.Keys Model.Node4 Model.Node16 Model.Node
-  Model.Tree Model.Iter Model.Api.
+  Model.Tree Model.Iter Model.Api Model.Pool.
 Require Extraction.
 Require Import ExtrOcamlBasic.
 Extraction Language OCaml.
@@ -12,4 +12,5 @@ Extraction "model.ml"
   searchNode4 insertPosNode4 getAtPos setAtPos shiftLeftClear shiftRightClear construct deconstruct
   searchNode16 insertPosNode16
   nfind nadd ndel nenum nlen nkind empty4 hdr0
+  xadd xdel xzero K4
   lex_cmp N.of_nat N.to_nat Z.of_N Z.to_N N.add N.mul N.div N.modulo N.compare Z.compare Z.add Z.opp Z.of_nat.
